@@ -212,7 +212,8 @@ class ShadowSE2(DistEdgeA):
     TAG = 'EDGE_SE2'
 
 
-JUNK = ['# 100% synthetic, %d poses %s', 'NOTE 50%', '# a comment', 'FIX 0', ' VERTEX_XY 1 2.0 3.0', 'EDGE_SE2_XYZ 1 2 0 0 0 1 0 0 1 0 1', 'vertex_se2 1 0 0 0', 'VERTEX_SE2: 4 0 0 0', 'EDGE_SE3 1 2 0 0 0',
+JUNK = ['# PARAMS_SE2OFFSET 0 9 9 0.75', 'x VERTEX_SE2 1 0 0 0', '# EDGE_SE2 1 2 0 0 0 1 0 0 1 0 1', 'NOTE PARAMS_SE3OFFSET 0 0 0 0 0 0 0 1', '#EDGE_SE2_XY 1 2 1 1 1 0 1',
+        '# 100% synthetic, %d poses %s', 'NOTE 50%', '# a comment', 'FIX 0', ' VERTEX_XY 1 2.0 3.0', 'EDGE_SE2_XYZ 1 2 0 0 0 1 0 0 1 0 1', 'vertex_se2 1 0 0 0', 'VERTEX_SE2: 4 0 0 0', 'EDGE_SE3 1 2 0 0 0',
         'PARAMS_CAMERAPARAMETERS 0 1 2 3', 'VERTEXSE2 3 0 0 0', '\tVERTEX_SE3:QUAT 1 0 0 0 0 0 0 1', 'garbage', 'EDGE_SE2_XY_ 1 2 1 1 1 0 1']
 BLANK = ['', '   ', ' ']
 
